@@ -98,7 +98,7 @@ func TestC06(t *testing.T) {
 	})
 	// sum() and count() over nodes with numeric and non-numeric text
 	runProp(t, "sum", 8000, 500000, func(t *rapid.T) {
-		n := rapid.IntRange(0, 6).Draw(t, "nodes")
+		n := rapid.IntRange(0, 12).Draw(t, "nodes")
 		ev := []xmodel.Event{{K: "S", Local: "r"}}
 		var texts []string
 		exact := true
